@@ -8,6 +8,9 @@ Emit ==
   IF mode = "multi"
   THEN PrintT(<<"B", ToJson([m |-> "multi", cs |-> [r \in Res |-> IF r \in DOMAIN cs THEN <<cs[r]>> ELSE <<>>],
                              bal |-> bal, only |-> only, sat |-> SatAll(cs, bal, only)])>>)
+  ELSE IF mode = "buckets"
+  THEN PrintT(<<"B", ToJson([m |-> "buckets", cs |-> [r \in Res |-> IF r \in DOMAIN cs THEN <<cs[r]>> ELSE <<>>],
+                             bseq |-> bseq, only |-> only, sat |-> SatAll(cs, Aggregate(bseq, Zero), only)])>>)
   ELSE IF b = NoB
   THEN PrintT(<<"B", ToJson([m |-> "constraint", c |-> c, validf |-> ValidFor(c, "f"), validnf |-> ValidFor(c, "nf")])>>)
   ELSE PrintT(<<"B", ToJson([m |-> "pair", c |-> c, b |-> b, valid |-> ValidFor(c, b.kind), sat |-> Sat(c, b)])>>)
